@@ -12,6 +12,7 @@ import (
 	"runtime"
 	"strconv"
 	"strings"
+	"sync"
 
 	"github.com/hedzr/logg/slog"
 	errorsv3 "gopkg.in/hedzr/errors.v3"
@@ -22,7 +23,10 @@ import (
 	"verifharness/mon"
 )
 
-func init() { reg("C14", "sites", c14sites) }
+func init() {
+	reg("C14", "sites", c14sites)
+	reg("C14", "conc", c14conc)
+}
 
 type site struct {
 	File string
@@ -221,7 +225,7 @@ func c14sites(c *Ctx) {
 	w := mon.New(log, "W", mon.ShapePlain)
 	slog.AddFlags(slog.LnoInterrupt, slog.Lcaller)
 	slog.RemoveFlags(slog.Lprivacypath, slog.Lprivacypathregexp)
-	entries := c14entries()
+	entries := append(c14entries(), c14lineEntries()...)
 	cwd, _ := os.Getwd()
 	savedDefault := slog.Default()
 	savedStd := stdslog.Default()
@@ -319,6 +323,13 @@ func c14sites(c *Ctx) {
 			target.SetLevel(slog.InfoLevel)
 			bl = slog.NewLogLogger(target, slog.InfoLevel) // bridge severity == logger level
 		}
+		// the line-number flag is cleared for every third cell: file and function are still those of the statement (and
+		// a line, if one is reported at all, is the statement's)
+		noLineno := idx%3 == 2
+		if noLineno {
+			slog.RemoveFlags(slog.Llineno)
+			defer slog.AddFlags(slog.Llineno)
+		}
 		ctx := context.Background()
 		var stack []site
 		for round := 0; round < 2; round++ { // twice from the same call site: a second record must be attributed like the first
@@ -328,7 +339,7 @@ func c14sites(c *Ctx) {
 		} else {
 			stack = nest(cl.skip, cl.noinline, func() []site { return e.call(target, sl, bl, ctx) })
 		}
-		desc := map[string]any{"round": round, "entry": e.name, "format": cl.f.String(), "skip": cl.skip, "skip_via": via, "logger": cl.kind, "wrappers_noinline": cl.noinline, "wrapper_style": map[bool]string{true: "direct chain", false: "closures"}[idx%2 == 0]}
+		desc := map[string]any{"round": round, "entry": e.name, "format": cl.f.String(), "skip": cl.skip, "skip_via": via, "logger": cl.kind, "line_number_flag_cleared": noLineno, "wrappers_noinline": cl.noinline, "wrapper_style": map[bool]string{true: "direct chain", false: "closures"}[idx%2 == 0]}
 		evs := log.Writes("")
 		c.R.Add("calls", 1)
 		sig := func(clause string) string {
@@ -369,6 +380,12 @@ func c14sites(c *Ctx) {
 				wantFn = wantFn[i+1:]
 			}
 		}
+		if !filepath.IsAbs(want.File) {
+			want.File = filepath.Join(cwd, want.File) // a //line directive with a relative file name
+		}
+		if noLineno && gotLine == 0 {
+			gotLine = want.Line // no line reported under the cleared flag
+		}
 		if gotLine != want.Line || filepath.Clean(gotFile) != filepath.Clean(want.File) || gotFn != wantFn {
 			c.R.Violation(idx, "attribution", sig("attribution"), fmt.Sprintf("record says %s:%s %s; the statement that issued it (skip %d) is %s:%d %s\nstack at the call: %+v", d.Caller["file"], d.Caller["line"], gotFn, cl.skip, want.File, want.Line, want.Func, stack), desc)
 			return
@@ -391,4 +408,70 @@ func expectedFrame(stack []site, skip int) (site, bool) {
 		return stack[skip], true
 	}
 	return site{}, false
+}
+
+// c14conc: several goroutines log at the same time, each from call sites of its own (eight distinct functions); every
+// record names the function whose statement issued it. One case = one run of G goroutines x N records.
+func c14conc(c *Ctx) {
+	slog.AddFlags(slog.LnoInterrupt, slog.Lcaller)
+	slog.RemoveFlags(slog.Lprivacypath, slog.Lprivacypathregexp)
+	c.Each(func(idx int, r *gen.R) {
+		log := mon.NewLog()
+		w := mon.New(log, "W", mon.ShapePlain)
+		f := []Format{FJSON, FLogfmt}[idx%2]
+		lg := newRoot("c14c", f, w, slog.AlwaysLevel)
+		kid := lg.New("kid")
+		kid.SetWriter(w).SetErrorWriter(w)
+		G := gen.Pick(r, []int{2, 4, 8, 16})
+		N := r.Range(300, 1500)
+		var wg sync.WaitGroup
+		start := make(chan struct{})
+		for g := 0; g < G; g++ {
+			g := g
+			wg.Add(1)
+			go func() {
+				defer wg.Done()
+				<-start
+				site := c14concSites[g%len(c14concSites)]
+				l := lg
+				if g%3 == 2 {
+					l = kid
+				}
+				for k := 0; k < N; k++ {
+					site(l, fmt.Sprintf("s%d-g%d-k%d", g%len(c14concSites), g, k))
+				}
+			}()
+		}
+		close(start)
+		wg.Wait()
+		evs := log.Writes("")
+		c.R.Add("concurrent_records", int64(len(evs)))
+		desc := map[string]any{"goroutines": G, "records_per_goroutine": N, "format": f.String()}
+		if len(evs) != G*N {
+			c.R.Violation(idx, "record", "C14/concurrent/count", fmt.Sprintf("%d records delivered for %d calls", len(evs), G*N), desc)
+			return
+		}
+		for _, e := range evs {
+			d, err := decodeRecord(f, e.Data, true, true)
+			if err != nil {
+				c.R.Violation(idx, "decode", "C14/concurrent/decode", err.Error()+": "+q(clip(string(e.Data), 300)), desc)
+				return
+			}
+			var sn int
+			if _, err := fmt.Sscanf(d.Msg, "s%d-", &sn); err != nil {
+				c.R.Violation(idx, "decode", "C14/concurrent/decode", "message without site number: "+q(clip(d.Msg, 80)), desc)
+				return
+			}
+			want := fmt.Sprintf("main.c14concSite%d", sn)
+			if d.Caller["function"] != want || !strings.HasSuffix(d.Caller["file"], "c14lines.go") {
+				c.R.Violation(idx, "attribution", "C14/attribution/concurrent", fmt.Sprintf("record %q was issued by a statement in %s; it says %s:%s %s", d.Msg, want, d.Caller["file"], d.Caller["line"], d.Caller["function"]), desc)
+				return
+			}
+		}
+		c.R.Add("concurrent_attributions_confirmed", int64(len(evs)))
+		c.R.NonTrivial("conc", idx, G, N)
+		if c.R.WantSample() {
+			c.R.Sample(idx, desc, "every record names the function of its own call site")
+		}
+	})
 }
